@@ -66,6 +66,13 @@ theorem gen_thread : Gen.C17.spRunTry = ["event = self._queue.get(block=True, ti
 base height, vertical velocity and base time are re-based for EVERY set-point, whether or not its vertical velocity changed -/
 theorem gen_new_setpoint : Gen.C17.spNewSetpointTargets = ["self._z_base", "self._z_velocity", "self._z_base_time", "self._hover_setpoint"] ∧
     Gen.C17.spNewSetpointBranches = 0 := by decide
+/-- **Per-object state.**  The theorems below are about ONE commander; they apply to every commander of a process (several
+Crazyflies commanded alternately, consecutive sessions) because nothing mutable is shared between the objects: no class-level
+list / dict / set / object in `MotionCommander`, `_SetPointThread`, `PositionHlCommander`; `_hover_setpoint` is only ever bound to a
+FRESH list literal (in `__init__` and for every new set-point), and the only element write goes to that list's height slot. -/
+theorem gen_no_shared_state : Gen.C17.mcClassMutables = [] ∧ Gen.C17.hlClassMutables = [] ∧
+    Gen.C17.spHoverRebinds = ["self._hover_setpoint = List", "self._hover_setpoint = List"] ∧
+    Gen.C17.spHoverElementWrites = ["self._hover_setpoint[self.ABS_Z_INDEX]"] := by decide
 theorem gen_period_pos : 0 < Gen.C17.UPDATE_PERIOD := by decide +kernel
 /-- the directions are the documented ones: x forward, y left, z up -/
 theorem gen_axes (d : Q) :
